@@ -673,7 +673,7 @@ def run(ctx, rep):
         if v:
             rep.violate(v[0], v[1], rd)
             known = known | {v[0]}
-    found = found or any(not v.no_input for v in rep.violations)
+    found = real_violation(rep)
     bad = vlib.run_shards(ctx, rep, "c19k", HEADER_D, "check", terms, shard=max(1, -(-len(terms) // 12)), timeout=600, case_type="case")
     rep.extra["kernel_shard_cases"] = len(terms)
     rep.extra["t_kernels"] = round(time.time() - t0, 1)
@@ -685,7 +685,6 @@ def run(ctx, rep):
         term, viol, info = run_grid(rd) if rd["kind"] == "grid" else run_desc(ml, rd)
         rep.count(f"{rd['kind']}:{rd['stream']}" + (":" + rd["target"] if "target" in rd else ""))
         if viol:
-            found = True
             gflagged.add(len(gowners))
             rep.violate("C19:" + (("grid:" + viol[0]) if rd["kind"] == "grid" else viol[0]), viol[1], rd)
         if term is None:
@@ -701,17 +700,23 @@ def run(ctx, rep):
     order = [j for s0 in range(nsh) for j in range(s0, len(gterms), nsh)]
     gterms = [gterms[j] for j in order]
     gowners = [gowners[j] for j in order]
+    found = real_violation(rep)
     gbad = vlib.run_shards(ctx, rep, "c19g", HEADER_G, "gcheck", gterms, shard=max(1, -(-len(gterms) // nsh)), timeout=900, case_type="gcase")
     rep.extra["grid_shard_cases"] = len(gterms)
     rep.extra["t_grid_shards"] = round(time.time() - t0, 1)
     report_bad(ctx, rep, "corr_c19g", gbad, gowners, gflagged, found)
     if not ok:
-        vlib.broken_obligation(rep, "C19_props", f"{where}\n{out[-1500:]}", found)
+        vlib.broken_obligation(rep, "C19_props", f"{where}\n{out[-1500:]}", real_violation(rep))
     for k in vlib.load_known():
         if k.get("property") == "C19" and k.get("status") == "known" and k["signature"] not in known:
             if any(v.sig == k["signature"] for v in replay(ctx, k["witness"])):
                 known = set(known) | {k["signature"]}
     return tuple(sorted(known))
+
+
+def real_violation(rep):
+    """a concrete failing input that is not one of the recorded findings"""
+    return any((not v.no_input) and v.sig not in (KNOWN_F32, KNOWN_AXIS) for v in rep.violations)
 
 
 def report_bad(ctx, rep, name, bad, owners, flagged, found):
